@@ -138,9 +138,17 @@ def synth(tr, tab, c):
         return [('eval', tuple(fn), k, float(a), tab.potentials[fn[1]].energy(float(a))) for (fn, k, a) in tr]
     return ec.synth_eam_events(tr, tab)
 
+def wide_corpus():
+    """fixed cases with many columns: an Excel pair sheet with 28 functions (all pairs of seven species: columns beyond Z) and a GULP table
+    with as many blocks"""
+    labs = sorted(layout.SPECIES_POOL)[:7]
+    pots = [[a, b, (i + j) % 2 == 0] for i, a in enumerate(labs) for j, b in enumerate(labs) if j >= i]
+    return [{'pots': pots, 'cutoff': 4.0, 'nr': 3, 'route': 'class', 'labels': labs, 'zero_every': None, 'writer': 'excel'},
+            {'pots': pots, 'cutoff': 4.0, 'nr': 3, 'route': 'class', 'labels': labs, 'zero_every': None, 'writer': 'gulp'}]
+
 def correspond(ctx):
     rng = ctx['rng']
-    cases = [gen_case(rng, ctx['thorough']) for _ in range(240 if ctx['thorough'] else 60)]
+    cases = wide_corpus() + [gen_case(rng, ctx['thorough']) for _ in range(240 if ctx['thorough'] else 60)]
     pcases = [gen_potable(rng) for _ in range(40 if ctx['thorough'] else 12)]
     dis = []
     runs = []
@@ -354,6 +362,7 @@ def check_adp(text, tab, case):
     return fails
 
 def search_cases(rng, n):
+    for c in wide_corpus(): yield c
     for k in range(n // 4):
         yield gen_case(rng)
         if k % 5 == 0: yield gen_potable(rng)
